@@ -126,7 +126,7 @@ func genRouting(p proto, t *simrt.Tape, tier string) *ccCfg {
 func genLiveness(p proto, t *simrt.Tape, tier string) *ccCfg {
 	cfg := &ccCfg{p: p, mode: modeLiveness, closeAt: -1, readErrAt: -1, bufcap: -1}
 	cfg.T = pick(t, ms(10), ms(1), ms(150), 5*time.Second)
-	cfg.tries = 1 + t.Choose(6)
+	cfg.tries = []int{1, 2, 3, 4, 5, 6, 0}[t.Weighted(3, 3, 3, 2, 2, 2, 1)] // 0: no try at all, the call fails at once
 	T := cfg.T
 	bound := T * time.Duration((int64(1)<<uint(cfg.tries))-1)
 	cfg.span = bound + T
